@@ -77,7 +77,10 @@ def sim_case(case, res, body, session_kw=None):
     S = None
     died = None
     try:
+        # every fourth case runs without ASan's quarantine (immediate reuse of released memory), unless the case says otherwise
+        kw.setdefault("reuse", case.get("reuse", (case.get("params") or {}).get("reuse", lane == "asan" and case["seed"] % 4 == 3)))
         S = Session(binary, config=build.cfg_of(cfgname), seed=case["seed"], fill_byte=case.get("fill_byte"), **kw)
+        S.stats["runs_without_quarantine" if S.reuse else "runs_with_quarantine"] += 1
         res.sample = body(S, rng)
     except DaemonDied:
         died = "died"
